@@ -186,11 +186,15 @@ Definition oracle (src : bytes) (oi os : list otok * list (Z * Z)) : option (str
       end
   end.
 
-(** ** the theorem instance on this input (model vs Spec; must hold by LexProofs — a failure
-    here means the extracted code or this file is broken) *)
+(** ** the theorem instance on this input (model vs Spec; must hold by LexRefine / LexValid /
+    LexMode — a failure here means the extracted code or this file is broken) *)
 Definition theorem_instance (src : bytes) : bool :=
   match utf8_decode src with
-  | None => true
+  | None =>
+      match lex true src, lex false src with
+      | Done _ es, Done _ es' => negb (is_nil es) && negb (is_nil es')
+      | _, _ => false
+      end
   | Some cps =>
       match spec_lex cps, lex true src, lex false src with
       | (_, EndFuel), _, _ => false
